@@ -34,6 +34,7 @@ LEAVES = [
     (lambda: Integer(1), "1"), (lambda: String("s"), "'s'"), (lambda: Float(1.5), "1.5"), (lambda: Bytes(b"b"), "b'b'"),
     (lambda: Complex(2j), "2j"), (lambda: Symbol("None"), "None"), (lambda: Symbol("True"), "True"), (lambda: Symbol("False"), "False"),
     (lambda: Symbol("cap"), "cap"), (lambda: Symbol("_"), "_"), (lambda: Symbol("cap-x!"), hy.mangle("cap-x!")),
+    (lambda: String("None"), "'None'"), (lambda: Bytes(b"True"), "b'True'"),      # literals spelled like the singletons
     (lambda: E(S("."), S("m"), S("C")), "m.C"), (lambda: E(S("."), S("m"), S("sub"), S("val-x")), "m.sub.val_x"),
 ]
 
@@ -141,6 +142,19 @@ def run(chk):
     chk.ob("pattern/captures p, *q and :as w are recorded as assignments of the enclosing scope", {"p", "q", "w"} <= comp.scope.defined,
            "structural", "proved", detail=str(sorted(comp.scope.defined)))
 
+    # every pattern kind also compiles inside a comprehension (there the enclosing scope collects the names a pattern assigns)
+    import hy.scoping as hsc
+    kinds = {"capture": lambda: S("q"), "wildcard": lambda: S("_"), "star": lambda: List([S("q"), E(S("unpack-iterable"), S("r"))]),
+             "star wildcard": lambda: List([S("q"), E(S("unpack-iterable"), S("_"))]), "mapping without rest": lambda: Dict([String("k"), S("q")]),
+             "mapping with rest": lambda: Dict([String("k"), S("q"), E(S("unpack-mapping"), S("r"))]), "class": lambda: E(S("Cls"), S("q"), Keyword("a"), S("r")),
+             "or": lambda: E(S("|"), Integer(1), Integer(2)), "as": None}
+    for pk, mk in kinds.items():
+        for body_shape in ("E", "SE"):
+            clause = [Integer(1), Keyword("as"), S("w")] if mk is None else [mk()]
+            form = E(S("lfor"), S("v"), Tok("xs", "E"), E(S("match"), S("v"), *clause, Tok("b", body_shape)))
+            out = sx.run_rule(form)
+            chk.ob(f"pattern/inside a comprehension/{pk}/body shape {body_shape}: compiles", out.ok, "structural", "proved",
+                   detail=None if out.ok else f"{type(out.exc).__name__}: {out.exc}"[:300])
     # wrapper semantics
     C = rules.Case
     B = ("E", "SE", "S")
@@ -155,10 +169,14 @@ def run(chk):
       [("E",), B, ("E", "SE"), B, ("E", "SE")], kind="arity_bounded", fn=f)
     C("match/guard-then-default", lambda s, g, a, b: E(S("match"), s, S("x"), Keyword("if"), g, a, S("_"), b), 4, B,
       kind="arity_bounded", fn=f)
+    # guards that are literal models, also falsy ones (a rule must not test a model's own truth value)
+    for gname, g in (("0", lambda: Integer(0)), ("empty-string", lambda: String("")), ("empty-list", lambda: List([])), ("1", lambda: Integer(1))):
+        C(f"match/literal-guard-{gname}", (lambda g: lambda s, a, b: E(S("match"), s, S("x"), Keyword("if"), g(), a, S("_"), b))(g), 3,
+          [("E",), ("E", "SE"), ("E", "SE")], kind="arity_bounded", fn=f)
     C("match/as", lambda s, a: E(S("match"), s, Integer(1), Keyword("as"), S("w"), a), 2, BT, fn=f)
     C("match/value-used", lambda s, a, b: E(S("if"), E(S("match"), s, Integer(1), a), b, b), 3, ("E", "SE"), kind="arity_bounded")
     rules.run_cases(chk, ["match/0", "match/1", "match/2", "match/3", "match/guard-1", "match/guard-2", "match/guard-then-default",
-                          "match/as", "match/value-used"])
+                          "match/as", "match/value-used"] + [f"match/literal-guard-{g}" for g in ("0", "empty-string", "empty-list", "1")])
     chk.fn("hy/core/result_macros.py::compile_pattern", f)
     chk.trust("CPython's parser and match semantics for identical pattern nodes", "pysem Match model", "pattern renderer (docs/api.rst match)")
     chk.bounds.update({"pattern depth": "2 quick / 3 thorough", "clauses": "<=3"})
